@@ -549,3 +549,12 @@ Example C15_cp_normalize_inplace_false_before_9ada0b3 :
     nth_error (snd (exec sk_cp_normalize_method (env0 [self], h0))) o <> nth_error h0 o) /\
   footprint sk_cp_normalize_method_copy [RObj 0 []] method_heap = [].
 Proof. exact cp_normalize_inplace_false_before_9ada0b3. Qed.
+
+(* ------------------------------------------------------------------ cp_mode_dot(copy=False) with a vector after fix 93a737c: the neighbouring
+   factor is REBOUND in the caller's list (C15_cp_mode_dot_copy_false_inplace / _frame are about this skeleton); the old rule,
+   which scaled that factor's array in place, as a labelled Example: object 1 (a factor buffer) is in the old footprint only. *)
+Example C15_cp_mode_dot_copy_false_before_93a737c :
+  footprint sk_cp_mode_dot_nocopy [RObj 5 []; RObj 6 [0; 1]] cpmd_heap = [4; 5] /\
+  footprint old_cp_mode_dot_nocopy [RObj 5 []; RObj 6 [0; 1]] cpmd_heap = [1; 4; 5] /\
+  safe_with [true; false] old_cp_mode_dot_nocopy = true /\ footprint sk_cp_mode_dot_copy [RObj 5 []; RObj 6 [0; 1]] cpmd_heap = [].
+Proof. exact cp_mode_dot_nocopy_before_93a737c. Qed.
